@@ -49,4 +49,90 @@ theorem intStr_strip (e : Env) (i : Int) : e.strip (intStr i) = intStr i := by
   rw [strip_eq_stripBy]
   exact stripBy_tight _ _ (digits_tight _ _ (intStr_ne_nil i) (intStr_nospace e i))
 
+/-! ### token lists: `" ".join(tokens).split() == tokens` -/
+
+/-- a token: non-empty, no white space -/
+def Tok (e : Env) (t : Str) : Prop := t ≠ [] ∧ ∀ c ∈ t, e.isSpace c = false
+
+theorem splitWsAux_tok (e : Env) (t rest cur : Str) (h : ∀ c ∈ t, e.isSpace c = false) :
+    splitWsAux e (t ++ rest) cur = splitWsAux e rest (t.reverse ++ cur) := by
+  induction t generalizing cur with
+  | nil => rfl
+  | cons c cs ih =>
+    have hc : e.isSpace c = false := h c (by simp)
+    simp only [List.cons_append, splitWsAux, hc, Bool.false_eq_true, if_false]
+    rw [ih (c :: cur) (fun d hd => h d (by simp [hd]))]
+    simp
+
+theorem blank_isSpace (e : Env) : e.isSpace ' ' = true := by
+  rw [isSpace_ascii e _ (by decide)]; decide
+
+theorem splitWsAux_blank (e : Env) (rest cur : Str) (hc : cur ≠ []) :
+    splitWsAux e (' ' :: rest) cur = cur.reverse :: splitWsAux e rest [] := by
+  cases cur with
+  | nil => exact absurd rfl hc
+  | cons x xs => simp [splitWsAux, blank_isSpace e]
+
+theorem splitWs_joinSp (e : Env) (toks : List Str) (h : ∀ t ∈ toks, Tok e t) :
+    splitWs e (joinSp toks) = toks := by
+  unfold splitWs
+  induction toks with
+  | nil => rfl
+  | cons x rest ih =>
+    have hx := h x (by simp)
+    cases rest with
+    | nil =>
+      have := splitWs_token e x hx.1 hx.2
+      simpa [splitWs, joinSp] using this
+    | cons y r =>
+      have hrev : x.reverse ≠ [] := by simpa using hx.1
+      simp only [joinSp]
+      rw [splitWsAux_tok e x _ [] hx.2, List.append_nil, splitWsAux_blank e _ _ hrev,
+        List.reverse_reverse, ih (fun t ht => h t (by simp [ht]))]
+
+theorem joinSp_last (toks : List Str) (hne : toks ≠ []) (h : ∀ t ∈ toks, t ≠ []) :
+    ∃ r z t, joinSp toks = r ++ [z] ∧ t ∈ toks ∧ z ∈ t := by
+  induction toks with
+  | nil => exact absurd rfl hne
+  | cons x rest ih =>
+    cases rest with
+    | nil =>
+      obtain ⟨r, z, hz⟩ := exists_last x (h x (by simp))
+      exact ⟨r, z, x, by simpa [joinSp] using hz, by simp, by simp [hz]⟩
+    | cons y r =>
+      obtain ⟨r', z, t, h1, h2, h3⟩ := ih (by simp) (fun t ht => h t (by simp [ht]))
+      exact ⟨x ++ ' ' :: r', z, t, by simp [joinSp, h1], by simp [h2], h3⟩
+
+theorem joinSp_tight (e : Env) (toks : List Str) (h : ∀ t ∈ toks, Tok e t) :
+    Tight e.isSpace (joinSp toks) := by
+  cases toks with
+  | nil => exact Or.inl rfl
+  | cons x rest =>
+    right
+    have hx := h x (by simp)
+    constructor
+    · cases x with
+      | nil => exact absurd rfl hx.1
+      | cons a xr =>
+        refine ⟨a, xr ++ (match rest with | [] => [] | y :: r => ' ' :: joinSp (y :: r)), ?_, hx.2 a (by simp)⟩
+        cases rest <;> simp [joinSp]
+    · obtain ⟨r, z, t, h1, h2, h3⟩ := joinSp_last (x :: rest) (by simp) (fun t ht => (h t ht).1)
+      exact ⟨r, z, h1, (h t h2).2 z h3⟩
+
+theorem strAtoms_serialize (kw : Kw) (toks : List Str) :
+    listSerialize kw (toks.map .str) = .ok (toks, kw.nsMap) := by
+  induction toks with
+  | nil => rfl
+  | cons x rest ih =>
+    simp only [List.map_cons, listSerialize, atomSerialize]
+    have : ({ kw with nsMap := kw.nsMap } : Kw) = kw := rfl
+    rw [this, ih]
+
+theorem matchList_strs (e : CEnv) (kw : Kw) (toks : List Str) :
+    matchList e kw toks (toks.map .str) = true := by
+  induction toks with
+  | nil => rfl
+  | cons x rest ih =>
+    simp [matchList, matchAtomic, Atom.ty, atomDeserialize, ih]
+
 end Xs.Conv
